@@ -52,12 +52,20 @@ Section Hist.
   Inductive step :=
   | SUpd (m : M) (ok : bool) (q : qobs)      (* sudo UpdateParams, then the queries *)
   | SBad (q : qobs)                          (* undecodable UpdateParams: must fail, nothing moves *)
-  | SCreate (r : R) (ok : bool).             (* execute CreateMinter *)
+  | SCreate (r : R) (ok : bool)              (* execute CreateMinter *)
+  (* CreateMinter that also requests a collection start_trading_time `rel` seconds after
+     the sale start: the minter's instantiate refuses it beyond max_trading_offset_secs
+     (vending, open edition, token merge; the base minter has no bound) *)
+  | SCreateT (r : R) (rel : N) (ok : bool).
 
   Variable sudo : P -> M -> result P.
   Variable create : P -> R -> result unit.
   Variable peqb : P -> P -> bool.
   Variable ids_of : P -> list N.
+  Variable toff : P -> option N.
+
+  Definition trading_ok (p : P) (rel : N) : bool :=
+    match toff p with Some off => rel <=? off | None => true end.
 
   Definition obs_ok (p : P) (q : qobs) : bool :=
     peqb p (qo_params q) &&
@@ -74,9 +82,11 @@ Section Hist.
         end
     | SBad q :: rest => obs_ok p q && run p rest
     | SCreate r ok :: rest => Bool.eqb (is_ok (create p r)) ok && run p rest
+    | SCreateT r rel ok :: rest =>
+        Bool.eqb (is_ok (create p r) && trading_ok p rel) ok && run p rest
     end.
 End Hist.
-Arguments mkQ {P}. Arguments SUpd {P M R}. Arguments SBad {P M R}. Arguments SCreate {P M R}.
+Arguments mkQ {P}. Arguments SUpd {P M R}. Arguments SBad {P M R}. Arguments SCreate {P M R}. Arguments SCreateT {P M R}.
 
 Definition kind_of (n : N) : option minter_kind := nth_error all_minter_kinds (N.to_nat n).
 
@@ -110,22 +120,29 @@ Inductive c18_case :=
   (* open-edition: what the factory's current dev_fee_address received *)
 | CMintDev (price bps : N) (dev_delta : N)
   (* base minter: a payment of `paid` for a mint priced `price` under `bps` *)
-| CBaseMint (price bps paid : N) (ok : bool).
+| CBaseMint (price bps paid : N) (ok : bool)
+  (* a payment of `paid` where the factory's CURRENT parameter demands `required`
+     (airdrop price: exactly; shuffle fee: at least) *)
+| CPayProbe (exact : bool) (required paid : N) (ok : bool)
+  (* what the fee recipients received out of `amount` under the current `bps` *)
+| CNetFee (amount bps delta : N).
 
 Definition c18_check (c : c18_case) : bool :=
   match c with
   | CBase init q0 steps =>
       obs_ok _ cparams_eqb cp_allowed init q0 &&
-      run _ _ _ base_sudo base_create cparams_eqb cp_allowed init steps
+      run _ _ _ base_sudo base_create cparams_eqb cp_allowed (fun _ => None) init steps
   | CVending init q0 steps =>
       obs_ok _ vparams_eqb (fun p => cp_allowed (vp_common p)) init q0 &&
-      run _ _ _ vending_sudo vending_create vparams_eqb (fun p => cp_allowed (vp_common p)) init steps
+      run _ _ _ vending_sudo vending_create vparams_eqb (fun p => cp_allowed (vp_common p))
+          (fun p => Some (cp_offset (vp_common p))) init steps
   | COpenEdition init q0 steps =>
       obs_ok _ oparams_eqb (fun p => cp_allowed (op_common p)) init q0 &&
-      run _ _ _ oe_sudo oe_create oparams_eqb (fun p => cp_allowed (op_common p)) init steps
+      run _ _ _ oe_sudo oe_create oparams_eqb (fun p => cp_allowed (op_common p))
+          (fun p => Some (cp_offset (op_common p))) init steps
   | CTokenMerge init q0 steps =>
       obs_ok _ tparams_eqb tp_allowed init q0 &&
-      run _ _ _ tm_sudo tm_create tparams_eqb tp_allowed init steps
+      run _ _ _ tm_sudo tm_create tparams_eqb tp_allowed (fun p => Some (tp_offset p)) init steps
   | CStatus variant seen0 steps =>
       match kind_of variant with
       | None => false
@@ -142,4 +159,7 @@ Definition c18_check (c : c18_case) : bool :=
   | CBaseMint price bps paid ok =>
       (* must_pay: a non-zero single native coin; then fee == payment *)
       Bool.eqb ok (negb (paid =? 0) && (mint_network_fee price bps =? paid))
+  | CPayProbe exact required paid ok =>
+      Bool.eqb ok (if exact then paid =? required else required <=? paid)
+  | CNetFee amount bps d => mint_network_fee amount bps =? d
   end.
